@@ -147,6 +147,11 @@ def disk_conformance(n_scripts=300, seed=0):
             corner.append(op)
           if k in ('rename', 'copy'):
             dst = d.norm('/sim/root/' + op[2])
+            cur = ''
+            for part in [x for x in dst.split('/') if x][:-1]:
+              cur += '/' + part
+              if cur in d.files:
+                corner.append(op)
             if q in d.dirs or dst in d.dirs or k == 'copy':
               corner.append(op)  # directory renames / copies onto directories: never issued by the legacy back-end
 
